@@ -12,9 +12,28 @@ def prove(ctx):
     _sched.prove(ctx, MODULES)
 
 
+def _orphan_token_scenario(ctx):
+    """"death of its scheduler followed by the job's own end": the real experiment process is killed while a job holds a file
+    token at capacity; the experiment is run again in a new process, whose CounterToken must reclaim the orphaned token
+    file and re-check the waiting job (the witness of fixed finding F26, shared with C11's real kill/restart matrix)"""
+    import json
+    from . import c11
+    f26 = next((f for f in json.loads((common.VERIF / "known_findings.json").read_text()) if f.get("id") == "F26"), None)
+    if not f26 or "real" not in (f26.get("witness") or {}):
+        return
+    case = {"real": f26["witness"]["real"]}
+    fails = c11._replay_case(ctx, case)
+    ctx.case({"scenario": "orphan-token-after-scheduler-death", "real": case["real"]}, True)
+    ctx.count("orphan_token_scenario", "fails" if fails else "ok")
+    for key, what in fails:
+        if "token" in key or "hang" in key or "finish" in what:
+            ctx.monitor_fail("orphan-token-not-given-back", f"{what} [scheduler killed while a job holds the token at capacity; run again]", case)
+
+
 def correspond(ctx):
     _sched.run(ctx, PROP, GEN, RULE, 1500, 25000)
     c09files.correspond(ctx)   # file-based token shared by several schedulers (model M2')
+    _orphan_token_scenario(ctx)
 
 
 def search(ctx):
@@ -27,5 +46,19 @@ def run_witness(ctx, finding):
 
 
 def replay(ctx, obj):
+    rc0 = 0
+    for x in obj.get("failures", []):
+        if x.get("case", {}).get("scenario") == "orphan-token-after-scheduler-death" or (x.get("case", {}).get("real") and "scenario" not in x["case"]):
+            from . import c11
+            fails = c11._replay_case(ctx, {"real": x["case"]["real"]})
+            print("replay:", fails[:2] if fails else "no failure on this tree")
+            if fails:
+                rc0 = 1
+                print(f"VIOLATION property={PROP} replay=(replayed)")
+    obj = dict(obj, failures=[x for x in obj.get("failures", []) if not x.get("case", {}).get("real")])
+    return max(rc0, _replay_rest(ctx, obj))
+
+
+def _replay_rest(ctx, obj):
     mine = {"failures": [x for x in obj.get("failures", []) if x["case"].get("engine") != "tokeng" and "scenario" not in x["case"]]}
     return max(c09files.replay(ctx, obj), _sched.replay_events(ctx, PROP, mine))
